@@ -18,6 +18,9 @@ pub struct Case {
     pub table: DataTable,
     pub lines: Vec<String>,
     pub query: Select,
+    /// the NaN slice: (group key, value text) rows for `SELECT g, MIN(r), MAX(r), COUNT(r) FROM n GROUP BY g` over a REAL column fed as text
+    #[serde(default)]
+    pub nan_rows: Option<Vec<(u8, String)>>,
 }
 
 pub struct C04;
@@ -376,6 +379,80 @@ pub fn compare_table(query: &Select, expected: &TableOutcome, real: &RunOut, con
     }
 }
 
+/// MIN / MAX over REAL groups that contain NaN (and infinities): whatever place the implementation's total order gives NaN
+/// (the least or the greatest value, see C16), MIN and MAX are the two ends of the group's non-NULL values under that one order.
+/// Observed through the text format (JSON prints NaN and the infinities as null).
+fn check_nan_slice(rows: &[(u8, String)], ctx: &Ctx, obs: &mut Obs) -> Result<(), Failure> {
+    obs.label("nan-slice");
+    let defs = "CREATE TABLE n(line = '^g=([0-9]);r=([^;]*);', line[1] => g INT, line[2] => r REAL);";
+    let tables = build_tables(defs).map_err(|e| Failure::new("definition-rejected", e))?;
+    let query = "SELECT g, MIN(r) AS lo, MAX(r) AS hi, COUNT(r) AS n FROM n GROUP BY g";
+    let statement = parse_statement(query).map_err(|e| Failure::new("query-rejected", e))?;
+    let lines: Vec<String> = rows.iter().map(|(g, r)| format!("g={};r={};", g, r)).collect();
+    let files = scratch_files(ctx, "c04n", &[lines_to_bytes(&lines)]);
+    let options = RunOptions { format: sqlgrep::executor::OutputFormat::CSV(";".to_owned()), ..RunOptions::default() };
+    let out = run_batch(&tables, &statement, &files, options).map_err(|p| Failure::new(format!("panic: {}", crate::run::panic_class(&p)), format!("panicked: {}\n  lines {:?}", p, lines)))?;
+    let context = format!("query: {}\n  table: {}\n  lines: {:?}\n  output: {:?}", query, defs, lines, out.lines);
+    if out.result.is_err() {
+        return Err(Failure::new("nan-slice: error", format!("{:?}\n  {}", out.result, context)));
+    }
+    // expected per group
+    let mut groups: std::collections::BTreeMap<u8, Vec<f64>> = std::collections::BTreeMap::new();
+    for (g, r) in rows {
+        let e = groups.entry(*g).or_default();
+        if let Ok(v) = r.parse::<f64>() {
+            if !r.is_empty() {
+                e.push(v);
+            }
+        }
+    }
+    let printed: Vec<Vec<String>> = out.lines.iter().skip(1).filter(|l| !l.is_empty()).map(|l| l.split(';').map(|x| x.trim().to_string()).collect()).collect();
+    let mut nontrivial = false;
+    for (g, values) in &groups {
+        let row = printed.iter().find(|r| r.first().map(|x| x == &g.to_string()).unwrap_or(false));
+        let row = match row {
+            Some(r) if r.len() == 4 => r,
+            _ => {
+                if values.is_empty() {
+                    // known finding F09b: a group without any non-NULL aggregate input may be missing
+                    continue;
+                }
+                return Err(Failure::new("nan-slice: group-missing", format!("group {} not printed\n  {}", g, context)));
+            }
+        };
+        if values.is_empty() {
+            continue;
+        }
+        let numbers: Vec<f64> = values.iter().cloned().filter(|v| !v.is_nan()).collect();
+        let has_nan = numbers.len() != values.len();
+        let parse = |s: &str| s.parse::<f64>().ok();
+        let (lo, hi) = (parse(&row[1]), parse(&row[2]));
+        let same = |a: Option<f64>, b: f64| a.map(|x| (x.is_nan() && b.is_nan()) || x == b).unwrap_or(false);
+        let min_num = numbers.iter().cloned().fold(f64::INFINITY, f64::min);
+        let max_num = numbers.iter().cloned().fold(f64::NEG_INFINITY, f64::max);
+        let ok = if !has_nan {
+            same(lo, min_num) && same(hi, max_num)
+        } else if numbers.is_empty() {
+            same(lo, f64::NAN) && same(hi, f64::NAN)
+        } else {
+            nontrivial = true;
+            // NaN is the greatest or the least value, consistently
+            (same(lo, min_num) && same(hi, f64::NAN)) || (same(lo, f64::NAN) && same(hi, max_num))
+        };
+        if !ok {
+            return Err(Failure::new(
+                format!("nan-slice: min-max{}", if has_nan { "+nan" } else { "" }),
+                format!("group {} holds {:?}: MIN printed {:?}, MAX printed {:?}\n  {}", g, values, row[1], row[2], context),
+            ));
+        }
+        if row[3] != values.len().to_string() {
+            return Err(Failure::new("nan-slice: count", format!("group {} holds {} non-NULL values, COUNT(r) printed {}\n  {}", g, values.len(), row[3], context)));
+        }
+    }
+    obs.nontrivial = nontrivial;
+    Ok(())
+}
+
 impl Property for C04 {
     type Case = Case;
 
@@ -420,10 +497,19 @@ impl Property for C04 {
         let query = gen_aggregate_query(t, &table, ctx, true, &mut excluded);
         // one case in eight: dozens of groups (wide key domain, up to 90 lines)
         let lines = if t.chance(1, 8) { gen_wide_lines(t, &table, 90) } else { gen_group_lines(t, &table, 14) };
-        Case { table, lines, query }
+        let nan_rows = if t.chance(1, 15) {
+            let n = 2 + t.draw(9);
+            Some((0..n).map(|_| (t.draw(3) as u8, t.pick(&["NaN", "NaN", "1.5", "-2.0", "0.25", "7.0", "inf", "-inf", ""]).to_string())).collect())
+        } else {
+            None
+        };
+        Case { table, lines, query, nan_rows }
     }
 
     fn check(&self, case: &Case, ctx: &Ctx, obs: &mut Obs) -> Result<(), Failure> {
+        if let Some(rows) = &case.nan_rows {
+            return check_nan_slice(rows, ctx, obs);
+        }
         let defs = case.table.definition();
         let tables = build_tables(&defs).map_err(|e| Failure::new("definition-rejected", format!("{}: {}", defs, e)))?;
         let text = case.query.text();
